@@ -262,6 +262,7 @@ class SX:
         self.obligations = []
         self.feas_timeout = feas_timeout_ms
         self.spec_mode = 0
+        self.code_comp = 0   # >0 while the element of a comprehension of the REAL code is evaluated (in spec mode, without effects)
         self.covers = []  # (name, hyps) reachability queries
         self.nfeas = 0
         self.loop_ordinal = 0
@@ -742,10 +743,10 @@ class SX:
         g = self.reg.lookup_global(self, name, st)
         if g is not None:
             return g
-        if not self.spec_mode and self.reg.bound_at_module_level(self, name):
+        if (not self.spec_mode or self.code_comp) and self.reg.bound_at_module_level(self, name):
             # imported or defined in the module, but nobody gave it a contract or a model
             return Conc(Unknown(name))
-        if not self.spec_mode and name in getattr(self, "enclosing_locals", ()):
+        if (not self.spec_mode or self.code_comp) and name in getattr(self, "enclosing_locals", ()):
             return Conc(Unknown("closure variable " + name))
         import builtins as _pybuiltins
         if self.unit is not None and hasattr(_pybuiltins, name) and name not in ("old", "forall", "exists", "implies", "iff", "ghost", "matches"):
